@@ -89,6 +89,9 @@ type ScriptConn struct {
 	After func(op *Op)
 	// CloseErr is returned by Close.
 	CloseErr error
+	// QuietReads: do not log successful Read ops (only count their bytes).
+	QuietReads bool
+	nread      int
 	// SDErr: if set, returned by SetDeadline-family calls with the given
 	// all-op index (used by handshake fault enumeration).
 	Name string
@@ -175,7 +178,10 @@ func (c *ScriptConn) Read(p []byte) (int, error) {
 		err = c.restE
 		c.restE = nil
 	}
-	c.log(&Op{Kind: OpRead, N: n, Err: err, WIdx: -1})
+	c.nread += n
+	if !c.QuietReads || err != nil {
+		c.log(&Op{Kind: OpRead, N: n, Err: err, WIdx: -1})
+	}
 	c.mu.Unlock()
 	return n, err
 }
@@ -333,11 +339,5 @@ func (c *ScriptConn) ResetLog() {
 func (c *ScriptConn) BytesRead() int {
 	c.mu.Lock()
 	defer c.mu.Unlock()
-	n := 0
-	for _, o := range c.Ops {
-		if o.Kind == OpRead {
-			n += o.N
-		}
-	}
-	return n
+	return c.nread
 }
